@@ -745,6 +745,14 @@ Proof.
   - intros pos Hp. rewrite Hs, map_length in Hp. cbn [snd Y]. apply Hv, Hp.
 Qed.
 
+Lemma inds_nodup_sub l r : inrange n (leaves l ++ leaves r) -> NoDup (inds n sl false (Node l r)).
+Proof. intros H. apply (inds_sub_spec n sl (Node l r)). exact H. Qed.
+Lemma inds_nodup_root l r : NoDup (output n) -> NoDup (inds n sl true (Node l r)).
+Proof.
+  intros NDo. cbn [inds]. change (lkeys (root_legs n sl)) with (out_inds n sl). rewrite out_inds_eq.
+  apply NoDup_filter, NDo.
+Qed.
+
 (* the two cases of `inds`: a proper subtree needs nothing more; the root needs a
    duplicate-free declared output *)
 Corollary node_tdot_eq_einsum_sub l r (tm : temps) :
